@@ -104,12 +104,16 @@ def mean_case(case):
       [list(range(n)), list(range(n))[::-1], list(range(1, n)) + [0]])
   fns = [case['fn']] if 'fn' in case else ['tree_mean', 'aggregator']
   its = [case['it']] if 'it' in case else ['list', 'gen', 'oneshot']
+  # the aggregator ignores client ids: repeated ids (sampling with replacement, anonymous clients) are ordinary input
+  idms = [case['ids']] if 'ids' in case else ['distinct', 'same', 'pairs']
   evals = 0
   base = None
   for order in orders:
     for fn in fns:
-      for it in its:
-        nc = dict(case, order=list(order), fn=fn, it=it)
+      for it in [(i, m) for i in its for m in (idms if fn == 'aggregator' and n > 1 else idms[:1])]:
+        it, idm = it
+        nc = dict(case, order=list(order), fn=fn, it=it, ids=idm)
+        mkid = {'distinct': lambda i: b'c%d' % i, 'same': lambda i: b'', 'pairs': lambda i: b'c%d' % (i // 2)}[idm]
         trees = [make_tree(kind, k, seed, as_jax) for k in range(n)]
         snaps = [snapshot(t) for t in trees]
         pairs = [(trees[i], ws[i]) for i in order]
@@ -127,7 +131,7 @@ def mean_case(case):
         else:
           agg = _AGG[0]  # one long-lived aggregator object serves every case of this process
           st = agg.init()
-          out, st2 = agg.apply(wrap([(b'c%d' % i, t, w) for i, (t, w) in enumerate(pairs)], it), st)
+          out, st2 = agg.apply(wrap([(mkid(i), t, w) for i, (t, w) in enumerate(pairs)], it), st)
         tot = float(sum(ws))
         ref = []
         for li in range(len(snaps[0])):
@@ -201,10 +205,14 @@ def clip_case(case):
   kind, k, as_jax, seed = case['tree'], case['k'], case['jax'], case.get('seed', 0)
   tree = make_tree(kind, k, seed, as_jax) if not case.get('zero') else jax.tree_util.tree_map(
       lambda l: l * 0, make_tree(kind, k, seed, as_jax))
+  sc = case.get('scale', 1.0)
+  if sc != 1.0:
+    # very small / very large trees (float leaves only): the norm stays far from float32 under/overflow
+    tree = jax.tree_util.tree_map(lambda l: (l * np.float32(sc)).astype(l.dtype) if np.asarray(l).dtype.kind == 'f' else l, tree)
   snap = snapshot(tree)
   norm = float(np.sqrt(sum(np.sum(np.asarray(s, np.float64) ** 2) for s in snap)))
   evals = 0
-  for mult in ([case['mult']] if 'mult' in case else [0.25, 0.5, 1.0, 2.0, 'huge']):
+  for mult in ([case['mult']] if 'mult' in case else [0.25, 0.5, 1.0, 1.5, 2.0, 4.0, 'huge']):
     nc = dict(case, mult=mult)
     bound = 1e6 if mult == 'huge' else (mult * norm if norm > 0 else float(mult))
     out = tree_util.tree_clip_by_global_norm(tree, bound)
@@ -216,7 +224,7 @@ def clip_case(case):
       # bound equals the norm up to float32 rounding: either branch is right, the value is the input
       for g, s in zip(got, snap):
         r = np.asarray(s, np.float64)
-        require(bool(np.all(np.abs(g - r) <= 1e-5 * (1 + np.abs(r)))), 'clipping at the bound changed the tree',
+        require(bool(np.all(np.abs(g - r) <= 1e-5 * (min(1.0, norm) + np.abs(r)))), 'clipping at the bound changed the tree',
                 r.tolist(), g.tolist(), case=nc)
     elif norm <= bound:
       for g, s in zip(got, snap):
@@ -226,7 +234,7 @@ def clip_case(case):
       scale = bound / norm
       for g, s in zip(got, snap):
         r = np.asarray(s, np.float64) * scale
-        require(bool(np.all(np.abs(g - r) <= 1e-5 * (1 + np.abs(r)))), 'clipped tree is not bound/norm times the input '
+        require(bool(np.all(np.abs(g - r) <= 1e-5 * (min(1.0, norm) + np.abs(r)))), 'clipped tree is not bound/norm times the input '
                 '(direction changed)', r.tolist(), g.tolist(), case=nc)
     check_inputs_intact([tree], [snap], out, 'tree_clip_by_global_norm', nc)
     evals += 1
@@ -259,7 +267,7 @@ def plan(ctx):
   th = ctx.tier == 'thorough'
   ctx.rule = ('tree structure (5) x number of clients 1..4 x every weight vector over {0,.5,1,2}^n x every input order '
               'x {list, generator, one-shot iterable} x {tree_mean, mean_aggregator} x {jax, numpy} leaves; '
-              'tree_sum: n<=4 x all orders; clipping: 5 bounds relative to the norm + zero trees; distinct = case tuple; '
+              'tree_sum: n<=4 x all orders; clipping: 7 bounds relative to the norm x tree scales {1e-8,1e-7,1e-4,1,1e4,1e12} + zero trees; client ids {distinct, all equal, pairwise equal}; distinct = case tuple; '
               'non-trivial = a zero weight or unequal weights')
   ctx.assumptions += ['leaf values are small integers (exact in float32), offset by VERIF_SEED',
                       'aliasing is detected through buffer pointers and by deleting the inputs after the call']
@@ -278,4 +286,6 @@ def plan(ctx):
   ctx.run('sum', [{'tree': t, 'n': n, 'jax': j, 'seed': ctx.seed} for t in TREES for n in (1, 2, 3, 4)
                   for j in (True, False) if th or n <= 3 or j])
   ctx.run('clip', [{'tree': t, 'k': k, 'jax': j, 'seed': ctx.seed, 'zero': z} for t in TREES for k in range(3)
-                   for j in (True, False) for z in (False, True) if not (z and k)])
+                   for j in (True, False) for z in (False, True) if not (z and k)] +
+          [{'tree': t, 'k': k, 'jax': j, 'seed': ctx.seed, 'zero': False, 'scale': sc} for t in TREES for k in range(2)
+           for j in (True, False) for sc in (1e-8, 1e-7, 1e-4, 1e4, 1e12)])
